@@ -107,14 +107,16 @@ func rank(v Verdict) int {
 	return 2
 }
 
-func (r *Report) OK(rule, key, pos, detail string)   { r.Add(rule, key, pos, Discharged, detail) }
-func (r *Report) Bad(rule, key, pos, detail string)  { r.Add(rule, key, pos, Violated, detail) }
-func (r *Report) Unk(rule, key, pos, detail string)  { r.Add(rule, key, pos, Undecided, detail) }
-func (r *Report) Info(format string, a ...any)       { r.Infos = append(r.Infos, fmt.Sprintf(format, a...)) }
-func (r *Report) Fatalf(format string, a ...any)     { r.Fatal = append(r.Fatal, fmt.Sprintf(format, a...)) }
-func (r *Report) Assume(s string)                    { r.Assumptions = appendUniq(r.Assumptions, s) }
-func (r *Report) Trust(s string)                     { r.Trusted = appendUniq(r.Trusted, s) }
-func (r *Report) Uncovered(s string)                 { r.NotCovered = appendUniq(r.NotCovered, s) }
+func (r *Report) OK(rule, key, pos, detail string)  { r.Add(rule, key, pos, Discharged, detail) }
+func (r *Report) Bad(rule, key, pos, detail string) { r.Add(rule, key, pos, Violated, detail) }
+func (r *Report) Unk(rule, key, pos, detail string) { r.Add(rule, key, pos, Undecided, detail) }
+func (r *Report) Info(format string, a ...any)      { r.Infos = append(r.Infos, fmt.Sprintf(format, a...)) }
+func (r *Report) Fatalf(format string, a ...any) {
+	r.Fatal = append(r.Fatal, fmt.Sprintf(format, a...))
+}
+func (r *Report) Assume(s string)    { r.Assumptions = appendUniq(r.Assumptions, s) }
+func (r *Report) Trust(s string)     { r.Trusted = appendUniq(r.Trusted, s) }
+func (r *Report) Uncovered(s string) { r.NotCovered = appendUniq(r.NotCovered, s) }
 func (r *Report) Cond(ok bool, rule, key, pos, detail string) {
 	if ok {
 		r.OK(rule, key, pos, "")
@@ -273,21 +275,21 @@ func (r *Report) Finish(verifDir string, start time.Time) int {
 		"seed":        seed,
 		"level":       "other",
 		"coverage": map[string]any{
-			"explanation":            expl.String(),
-			"obligations":            len(r.Obls),
-			"discharged":             nDis,
-			"known_findings_matched": nKnown,
-			"samples":                samples,
-			"rules":                  r.Rules,
-			"configs":                r.Configs,
-			"functions_analysed":     len(funcs),
-			"functions":              funcs,
-			"call_graph_nodes":       r.CGNodes,
-			"trusted_base":           r.Trusted,
-			"checker_cmd":            fmt.Sprintf("./check.sh %s %s", r.Prop, r.Tier),
-			"exhaustive":             true,
-			"info":                   r.Infos,
-			"check_failures":         r.Fatal,
+			"explanation":             expl.String(),
+			"obligations":             len(r.Obls),
+			"discharged":              nDis,
+			"known_findings_matched":  nKnown,
+			"samples":                 samples,
+			"rules":                   r.Rules,
+			"configs":                 r.Configs,
+			"functions_analysed":      len(funcs),
+			"functions":               funcs,
+			"call_graph_nodes":        r.CGNodes,
+			"trusted_base":            r.Trusted,
+			"checker_cmd":             fmt.Sprintf("./check.sh %s %s", r.Prop, r.Tier),
+			"exhaustive":              true,
+			"info":                    r.Infos,
+			"check_failures":          r.Fatal,
 			"seeded_changes_analysed": sens,
 		},
 		"assumptions": r.Assumptions,
